@@ -10,9 +10,8 @@ maintained containers `surfs` (`cell.surfaces`) and `comps` (`cell.complements`)
 The number cache of `NumberedObjectCollection` is not repeated here (it is the subject of
 `Model/Collection.lean` and C06, whose theorems say that look-up by number is look-up among the
 current members): a collection is its member list, `append` raises `NumberConflictError` when a
-member has the number.  Membership tests follow the code: `x in collection` is `list.__contains__`,
-i.e. `==`, which is `Surface.__eq__` (number and shape) for surfaces, `Material.__eq__` (number and
-composition) for materials and identity for cells, universes and transforms.
+member has the number.  Membership tests follow the repaired code: `x in collection`, `remove`,
+`Material.cells` and the collecting in `add_cell_children_to_problem` all go by object identity.
 
 Every function returns the state *at the point where Python stops* together with the error, if any.
 The model follows the repaired code (`fix:` commits of C16).  No imports: used by the compiled driver.
@@ -112,10 +111,6 @@ structure St where
   mnum : ObjId → Int
   unum : ObjId → Int
   tnum : ObjId → Int
-  /-- what `Surface.__eq__` compares besides the number (type, constants, boundary flags) -/
-  sshape : ObjId → Nat
-  /-- what `Material.__eq__` compares besides the number (the composition) -/
-  mshape : ObjId → Nat
   /-- `surface.transform` -/
   strans : ObjId → Option ObjId
   slink : ObjId → Bool
@@ -140,17 +135,9 @@ def upd {α : Type} (f : ObjId → α) (k : ObjId) (v : α) : ObjId → α := fu
 def St.updCell (st : St) (c : ObjId) (f : CellSt → CellSt) : St :=
   { st with cellOf := upd st.cellOf c (f (st.cellOf c)) }
 
-/-- surface.py:Surface.__eq__ -/
-def surfEq (st : St) (a b : ObjId) : Bool := st.snum a == st.snum b && st.sshape a == st.sshape b
-
-/-- material.py:Material.__eq__ (equality of the hashes of composition and number) -/
-def matEq (st : St) (a b : ObjId) : Bool := st.mnum a == st.mnum b && st.mshape a == st.mshape b
-
-/-- `s in surfaces_collection` (numbered_object_collection.py:__contains__ → `list.__contains__` → `==`) -/
-def memS (st : St) (s : ObjId) (l : List ObjId) : Bool := l.any (fun x => surfEq st s x)
-
-/-- `m in materials_collection` -/
-def memM (st : St) (m : ObjId) (l : List ObjId) : Bool := l.any (fun x => matEq st m x)
+/-- `s in surfaces_collection`: numbered_object_collection.py:__contains__ (repaired code: identity, an equal
+    copy of a member is not a member) -/
+def memS (_st : St) (s : ObjId) (l : List ObjId) : Bool := l.contains s
 
 /-- cell.py:Cell.link_to_problem: the cell, its two containers, and (repaired code) what the cell already
     points at — the surfaces it holds, its material, its universe — are linked to the problem -/
@@ -427,12 +414,9 @@ def indexOfEq (eq : ObjId → ObjId → Bool) (o : ObjId) : List ObjId → Optio
   | [] => none
   | x :: t => if eq o x then some x else indexOfEq eq o t
 
-def St.eqOf (st : St) : Kind → ObjId → ObjId → Bool
-  | .surface => surfEq st | .material => matEq st | _ => fun a b => a == b
-
-/-- numbered_object_collection.py:remove (`list.index` uses `==`; `ValueError` when absent) -/
+/-- numbered_object_collection.py:remove (repaired code: the member that *is* the object; `ValueError` when absent) -/
 def collRemove (st : St) (k : Kind) (o : ObjId) : Res :=
-  match indexOfEq (st.eqOf k) o (st.members k) with
+  match indexOfEq (fun a b => a == b) o (st.members k) with
   | none => (st, some .valueError)
   | some x => (st.setMembers k ((st.members k).erase x), none)
 
@@ -457,7 +441,7 @@ def insertByNum (num : ObjId → Int) (o : ObjId) : List ObjId → List ObjId
 
 def sortByNum (num : ObjId → Int) (l : List ObjId) : List ObjId := l.foldr (insertByNum num) []
 
-/-- `set.add` / `set.update`: an element that is `==` to one already in the set is dropped -/
+/-- adding to the identity-keyed dict of add_cell_children_to_problem (`eq` is identity in every use) -/
 def setAdd (eq : ObjId → ObjId → Bool) (acc : List ObjId) (o : ObjId) : List ObjId :=
   if acc.any (fun x => eq o x) then acc else acc ++ [o]
 
@@ -469,9 +453,9 @@ def collect (eq : ObjId → ObjId → Bool) (items : ObjId → List ObjId) (cell
     linked to the problem, every member is linked; a numbering conflict changes nothing).  Surfaces come from
     `cell.surfaces`, transforms from the `transform` of those surfaces, materials from `cell.material`. -/
 def addCellChildren (st : St) : Res :=
-  let surfSet := collect (surfEq st) (fun c => (st.cellOf c).surfs) st.cells st.surfaces
+  let surfSet := collect (fun x y => x == y) (fun c => (st.cellOf c).surfs) st.cells st.surfaces
   let transSet := collect (fun x y => x == y) (fun c => (st.cellOf c).surfs.filterMap st.strans) st.cells st.transforms
-  let matSet := collect (matEq st) (fun c => (st.cellOf c).mat.toList) st.cells st.materials
+  let matSet := collect (fun x y => x == y) (fun c => (st.cellOf c).mat.toList) st.cells st.materials
   if ¬ (surfSet.map st.snum).Nodup ∨ ¬ (matSet.map st.mnum).Nodup ∨ ¬ (transSet.map st.tnum).Nodup then
     (st, some .numberConflict)
   else
@@ -481,7 +465,7 @@ def addCellChildren (st : St) : Res :=
         slink := fun x => if surfSet.contains x then true else st.slink x,
         mlink := fun x => if matSet.contains x then true else st.mlink x,
         tlink := fun x => if transSet.contains x then true else st.tlink x,
-        dataM := matSet.foldl (setAdd (matEq st)) st.dataM,
+        dataM := matSet.foldl (setAdd (fun x y => x == y)) st.dataM,
         dataT := transSet.foldl (setAdd (fun x y => x == y)) st.dataT }, none)
 
 /-! ### pointers from numbers (after reading, and again inside `remove_duplicate_surfaces`) -/
@@ -536,16 +520,20 @@ structure PCell where
   /-- `fill=` of the cell card -/
   fill : Option Int
 
-/-- cell.py:Cell.update_pointers after reading: material by number, new unlinked containers, geometry. -/
+/-- the material part of cell.py:Cell.update_pointers: `old_mat_number` is looked up among the problem's
+    materials (`BrokenObjectLinkError` when absent), 0 is void -/
+def resolveMaterial (st : St) (c : ObjId) (n : Int) : Res :=
+  let st0 := st.updCell c (fun cs => { cs with oldMat := n })
+  if n > 0 then
+    match firstWith st0.mnum n st0.materials with
+    | some m => (st0.updCell c (fun cs => { cs with mat := some m }), none)
+    | none => (st0, some .brokenLink)
+  else (st0.updCell c (fun cs => { cs with mat := none }), none)
+
+/-- cell.py:Cell.update_pointers after reading: material by number, new containers (linked like the cell:
+    repaired code), geometry. -/
 def cellUpdatePointers (st : St) (c : ObjId) (pc : PCell) : Res :=
-  let st0 := st.updCell c (fun cs => { cs with oldMat := pc.mat })
-  let r : Res :=
-    if pc.mat > 0 then
-      match firstWith st0.mnum pc.mat st0.materials with
-      | some m => (st0.updCell c (fun cs => { cs with mat := some m }), none)
-      | none => (st0, some .brokenLink)
-    else (st0.updCell c (fun cs => { cs with mat := none }), none)
-  match r with
+  match resolveMaterial st c pc.mat with
   | (st1, none) =>
     match updatePointersP c pc.geom (st1.updCell c (fun cs => { cs with surfs := [], comps := [], contLinked := cs.link })) with
     | ((st2, none), some g) => (st2.updCell c (fun cs => { cs with geom := some g }), none)
@@ -593,9 +581,9 @@ def appendAll (k : Kind) : List ObjId → St → Res
 
 /-- The object pool before anything is read: numbers and shapes of every object that will ever exist
     in the case, nothing linked, empty problem. -/
-def St.blank (cnum snum mnum unum tnum : ObjId → Int) (sshape mshape : ObjId → Nat)
+def St.blank (cnum snum mnum unum tnum : ObjId → Int)
     (strans : ObjId → Option ObjId) : St :=
-  { cellOf := fun _ => {}, cnum, snum, mnum, unum, tnum, sshape, mshape, strans,
+  { cellOf := fun _ => {}, cnum, snum, mnum, unum, tnum, strans,
     slink := fun _ => false, mlink := fun _ => false, ulink := fun _ => false, tlink := fun _ => false,
     cells := [], surfaces := [], materials := [], universes := [], transforms := [], dataM := [], dataT := [] }
 
@@ -636,10 +624,10 @@ def reupdate (st : St) : Res := (st, none)
 def surfaceCells (st : St) (s : ObjId) : List ObjId :=
   if st.slink s then st.cells.filter (fun c => memS st s (st.cellOf c).surfs) else []
 
-/-- material.py:Material.cells (`cell.material == self`) -/
+/-- material.py:Material.cells (repaired code: `cell.material is self`) -/
 def materialCells (st : St) (m : ObjId) : List ObjId :=
   if st.mlink m then st.cells.filter (fun c => match (st.cellOf c).mat with
-    | some m' => matEq st m' m
+    | some m' => m' == m
     | none => false) else []
 
 /-- universe.py:Universe.cells (`cell.universe == self`, identity) -/
